@@ -309,6 +309,26 @@ func checkC16(c *Ctx) {
 						st.class = "unguarded: recursion along a message reference without a visited set"
 					}
 				}
+				// a visited set protects only if the SAME set travels along the cycle
+				if st.class == "map-arm" || strings.HasPrefix(st.class, "visited") {
+					for _, a := range cs.Call.Args {
+						tv, ok := info.Types[a]
+						if !ok || tv.Type == nil {
+							continue
+						}
+						if _, isMap := tv.Type.Underlying().(*types.Map); !isMap {
+							continue
+						}
+						switch x := ast.Unparen(a).(type) {
+						case *ast.CompositeLit:
+							st.class = "unguarded: a fresh (empty) visited set " + types.ExprString(x) + " is passed to the recursive call, so the callee's entry test never fires"
+						case *ast.CallExpr:
+							if id, ok := x.Fun.(*ast.Ident); ok && id.Name == "make" {
+								st.class = "unguarded: a fresh visited set (make) is passed to the recursive call, so the callee's entry test never fires"
+							}
+						}
+					}
+				}
 				sites = append(sites, st)
 			}
 		}
@@ -380,6 +400,35 @@ func checkC16(c *Ctx) {
 							r.CheckD(acc, "R16c-panic", fmt.Sprintf("%s %s(%s)", where, name, arg), c.P.Pos(x.Pos()),
 								"the plugin crashes instead of answering with CodeGeneratorResponse.error", map[string]any{"accepted_because": panicAccepted[where]})
 						}
+					case *ast.SliceExpr:
+						// x[:k] / x[k:] with a constant k > 0 on a string or slice: needs a length guard
+						xt, ok := info.Types[x.X]
+						if !ok {
+							return true
+						}
+						isStr := false
+						if b, ok := xt.Type.Underlying().(*types.Basic); ok && b.Info()&types.IsString != 0 {
+							isStr = true
+						}
+						if _, isSlice := xt.Type.Underlying().(*types.Slice); !isSlice && !isStr {
+							return true
+						}
+						bound := ""
+						for _, be := range []ast.Expr{x.Low, x.High} {
+							if be == nil {
+								continue
+							}
+							if tv, ok := info.Types[be]; ok && tv.Value != nil && tv.Value.ExactString() != "0" {
+								bound = tv.Value.ExactString()
+							}
+						}
+						if bound == "" {
+							return true
+						}
+						base := types.ExprString(x.X)
+						guard := c.findLenGuard(info, parents, x, base, bound)
+						key := fmt.Sprintf("%s %s sliced at %s", c.enclosingFunc(pk, x.Pos()), base, bound)
+						r.CheckD(guard != "", "R16c-index", key, c.P.Pos(x.Pos()), "a string/slice is cut at a constant bound without a dominating length or emptiness guard: an empty element (a name segment such as the one after a trailing underscore) makes the plugin panic with `slice bounds out of range` instead of answering", map[string]any{"guard": guard})
 					case *ast.IndexExpr:
 						// constant index into a slice (not a map, not a type instantiation)
 						tv, ok := info.Types[x.Index]
@@ -457,6 +506,12 @@ func (c *Ctx) findLenGuard(info *types.Info, parents map[ast.Node]ast.Node, at a
 		ast.Inspect(cond, func(n ast.Node) bool {
 			if call, ok := n.(*ast.CallExpr); ok {
 				if id, ok := call.Fun.(*ast.Ident); ok && id.Name == "len" && len(call.Args) == 1 && types.ExprString(call.Args[0]) == base {
+					found = true
+				}
+			}
+			// emptiness test of a string: x == "" / x != ""
+			if be, ok := n.(*ast.BinaryExpr); ok && (be.Op == token.EQL || be.Op == token.NEQ) {
+				if types.ExprString(be.X) == base && types.ExprString(be.Y) == `""` {
 					found = true
 				}
 			}
